@@ -974,6 +974,39 @@ func c05issued(c *Ctx, roots []*ssa.Function) {
 				})
 			}
 		}
+		// and unconditionally so: between the ok edge and the production of `true` there is no further test
+		// (an expunge whose message is not in the snapshot yet is held back like any other)
+		for _, t := range typeTests(ei, "internal/state", "expunge") {
+			blk := t.ifb.Succs[0]
+			uncond := true
+			for steps := 0; steps < 6; steps++ {
+				if engine.IfOf(blk) != nil {
+					uncond = false
+					break
+				}
+				if len(blk.Succs) != 1 {
+					break
+				}
+				// stop at the block where the value joins (a phi receives the constant true) or at a return
+				next := blk.Succs[0]
+				joins := false
+				for _, in := range next.Instrs {
+					if ph, ok := in.(*ssa.Phi); ok {
+						for i, e := range ph.Edges {
+							if v, isB := engine.ConstBool(e); isB && v && next.Preds[i] == blk {
+								joins = true
+							}
+						}
+					}
+				}
+				if joins {
+					break
+				}
+				blk = next
+			}
+			R.Check(uncond, "R05.5", c.name(ei)+"|every-queued-expunge-counts", P.Pos(ei.Pos()), "a queued *expunge makes ExpungeIssued true without further conditions",
+				"ExpungeIssued tests something else besides the responder being an *expunge: an expunge that is held back but does not satisfy the extra condition (for instance its message is not in the snapshot yet) is not reported, the tagged OK lacks [EXPUNGEISSUED]")
+		}
 		R.Check(reads && tests && trueUnderOk, "R05.5", c.name(ei)+"|scans-pending", P.Pos(ei.Pos()),
 			"ExpungeIssued scans the remaining queue State.res for *expunge", "ExpungeIssued no longer reports a pending *expunge in State.res")
 	}
